@@ -136,13 +136,46 @@ def norm_ok(read_code, written_code):
 
 def check_write(mem, version, code, dest_seed, case):
     """Write a cart to x.p8.png and judge the file. Returns labels."""
+    import shutil
+    sd = tempfile.mkdtemp(prefix='c04s_')      # where the file a cart was loaded from lives (until after the write)
+    try:
+        return _check_write(mem, version, code, dest_seed, case, sd)
+    finally:
+        shutil.rmtree(sd, ignore_errors=True)
+
+
+def _check_write(mem, version, code, dest_seed, case, sd):
     from pico8.game import file as pfile
     from vlib import prelude
     _patch_compress()
     prelude.files()
     labs = []
     try:
-        g = cartgen.make_game(mem, version=version, code=code)
+        origin = case.get('origin')
+        if origin == 'labelled':
+            # the cart carries a label picture of its own (as one loaded from a .p8 with a __label__ section does)
+            g = cartgen.make_game(mem, version=version, code=code, label=expand(b'cartlabel' + bytes(case.get('seed', b'')), 8192))
+            labs.append('cart_with_own_label')
+        elif origin in ('from_png', 'from_p8_labelled'):
+            # the cart was loaded from a file (it remembers its file name) whose picture / label is not the blank one
+            if True:
+                if origin == 'from_png':
+                    sp = os.path.join(sd, 'source.p8.png')
+                    with open(sp, 'wb') as fh:
+                        fh.write(reffmt.write_p8png(label_rows_for(b'srcl'), mem, code if len(code) <= AREA and b'\0' not in code
+                                                    and not code.startswith(b':c:') else b'', version))
+                else:
+                    sp = os.path.join(sd, 'source.p8')
+                    with open(sp, 'wb') as fh:
+                        fh.write(reffmt.write_p8(version, b'', mem, label=expand(b'srclabel', 8192)))
+                g = pfile.from_file(sp)
+            from pico8.lua import lua as plua
+            g.lua = plua.Lua.from_lines([code], version=g.version)
+            if origin == 'from_p8_labelled':
+                mem = cartgen.flat(g)         # (the .p8 format has no place for one bit of each music pattern)
+            labs.append('cart_loaded_' + origin)
+        else:
+            g = cartgen.make_game(mem, version=version, code=code)
         if case.get('lua_version') is not None:
             # a cart assembled from parts (as `build --lua other.p8` does): its Lua object carries another version
             # number than the cart; what the file says and how it is read goes by the cart's version
@@ -300,6 +333,8 @@ def small_case(seed, version):
         case['lua_version'] = 8 if version == 0 else (0 if seed[-2] % 2 else version + 1)
     if seed[-3] % 2 == 1:
         case['explicit_none_label'] = True
+    if seed[-4] % 4 in (1, 2, 3):
+        case['origin'] = ('labelled', 'from_png', 'from_p8_labelled')[seed[-4] % 4 - 1]
     return case
 
 
@@ -516,7 +551,7 @@ def vacuity(total, tier):
     msgs = []
     for lab in ('stored_raw', 'stored_compressed', 'refused', 'boundary_raw', 'boundary_compressed', 'boundary_header_edge',
                 'boundary_compressed_exact_fill', 'lua_object_of_other_version', 'label_fname_none_passed',
-                'dest_exists', 'dest_absent', 'dest_plain', 'dest_interlaced', 'dest_ancillary', 'dest_chunk_pHYs', 'convert', 'code_update60', 'code_incompressible_update60', 'code_table_rows', 'written_twice'):
+                'dest_exists', 'dest_absent', 'cart_with_own_label', 'cart_loaded_from_png', 'cart_loaded_from_p8_labelled', 'dest_plain', 'dest_interlaced', 'dest_ancillary', 'dest_chunk_pHYs', 'convert', 'code_update60', 'code_incompressible_update60', 'code_table_rows', 'written_twice'):
         if total.classes.get(lab, 0) < 1:
             msgs.append('class %s never seen' % lab)
     return msgs
